@@ -28,82 +28,7 @@ func runC11(c *Check) {
 	c04PublishCopies(c, P, r)
 	c04LookupCopy(c, P+".O3", r)
 	R := r.Replay
-	res := r.LA.Result(R)
-	// O1: entry lockset of the replay literal (hand-off)
-	_, hasSubs := res.Entry[r.idSubs]
-	_, hasTopic := res.Entry[r.idTopic]
-	c.Report(hasSubs && res.Entry[r.idSubs] == 'W' && hasTopic, P+".O1", "HANDOFF", R, R.Pos(), "replay goroutine entry",
-		"the replay goroutine starts with the subscribers write lock and the topic mutex held (taken by Subscribe and handed over)", "entry: "+res.Entry.String())
-	c.Report(len(res.DeferredUnlock[r.idSubs]) > 0 && len(res.DeferredUnlock[r.idTopic]) > 0, P+".O1", "RELEASE-AT-END", R, R.Pos(), "replay goroutine",
-		"both locks are released by deferred unlocks of the replay goroutine (held until it ends)")
-	// no early unlock inside the literal
-	for _, cl := range CallsIn(R) {
-		if op, ok := r.LA.opOf(cl); ok && (op.mode == 'w' || op.mode == 'r') && (op.id == r.idSubs || op.id == r.idTopic) {
-			if _, isDefer := cl.(*ssa.Defer); !isDefer {
-				c.Report(false, P+".O1", "NO-EARLY-RELEASE", R, cl.Pos(), "unlock", "the replay goroutine releases "+op.id+" before it registered the subscription")
-			}
-		}
-	}
-	// critical operations inside the literal
-	n := 0
-	AllInstrs(R, func(in ssa.Instruction) {
-		what := ""
-		switch x := in.(type) {
-		case *ssa.Lookup:
-			if r.isPers(x.X) {
-				what = "read of the persisted log"
-			}
-		case *ssa.Go:
-			if CalleeFn(&x.Call) == r.Deliver {
-				what = "start of a replay"
-			}
-		case *ssa.Call:
-			if CalleeFn(&x.Call) == r.AddSub {
-				what = "registration"
-			}
-		}
-		if what == "" {
-			return
-		}
-		n++
-		held := r.LA.Held(in)
-		_, t := held[r.idTopic]
-		c.Report(held[r.idSubs] == 'W' && t, P+".O1", "ATOMIC-REPLAY-REGISTER", R, in.Pos(), what, "happens with the subscribers write lock and the topic mutex held", "held: "+held.String())
-	})
-	c.Floor(P+".O1", "persisted-log reads, replay starts and registration in the replay goroutine", n, 3)
-	// the parent does not release after the hand-off
-	var goReplay *ssa.Go
-	AllInstrs(r.Subscribe, func(in ssa.Instruction) {
-		if g, ok := in.(*ssa.Go); ok && FuncOfValue(g.Call.Value) == R {
-			goReplay = g
-		}
-	})
-	if c.Floor(P+".O1", "go statement starting the replay goroutine", b2i(goReplay != nil), 1) {
-		after := ReachAfter(goReplay, nil)
-		ok := true
-		var wit []string
-		for _, cl := range CallsIn(r.Subscribe) {
-			op, isOp := r.LA.opOf(cl)
-			if !isOp || (op.mode != 'w' && op.mode != 'r') || (op.id != r.idSubs && op.id != r.idTopic) {
-				continue
-			}
-			if _, isDefer := cl.(*ssa.Defer); isDefer {
-				// a deferred unlock executed on a path through the go statement
-				if ReachAfter(cl, nil)[goReplay] || after[cl] {
-					ok = false
-					wit = append(wit, "deferred unlock at "+c.P.Pos(cl.Pos())+" runs on the persistent path")
-				}
-			} else if after[cl] {
-				ok = false
-				wit = append(wit, "unlock at "+c.P.Pos(cl.Pos())+" after the hand-off")
-			}
-		}
-		c.Report(ok, P+".O1", "PARENT-KEEPS-LOCKED", r.Subscribe, goReplay.Pos(), "hand-off", "Subscribe itself releases neither lock on the persistent path (they stay held until the replay goroutine has registered the subscription)", wit...)
-		held := r.LA.Held(goReplay)
-		_, t := held[r.idTopic]
-		c.Report(held[r.idSubs] == 'W' && t, P+".O1", "LOCKED-AT-HANDOFF", r.Subscribe, goReplay.Pos(), "hand-off", "both locks are held when the replay goroutine is started", "held: "+held.String())
-		// the replay literal is started for the subscription being created
-	}
+	c11Handoff(c, P+".O1", r)
 	// registration after the replays were started, on every path
 	for _, ad := range Callers([]*ssa.Function{R}, r.AddSub) {
 		for _, ret := range Returns(R) {
@@ -258,4 +183,91 @@ func isRangeCounter(bo *ssa.BinOp) bool {
 		}
 	}
 	return hasInit && hasStep
+}
+
+// c11Handoff: the goroutine that registers a persistent subscription starts
+// with the subscribers write lock and the topic mutex held (handed over by
+// Subscribe, which releases neither on that path) and keeps them until it has
+// registered: a Publish after Subscribe returned cannot miss the subscription.
+// Shared with C04.O6 and C05.
+func c11Handoff(c *Check, id string, r *GCRoles) {
+	P := id
+	_ = P
+	R := r.Replay
+	res := r.LA.Result(R)
+	// O1: entry lockset of the replay literal (hand-off)
+	_, hasSubs := res.Entry[r.idSubs]
+	_, hasTopic := res.Entry[r.idTopic]
+	c.Report(hasSubs && res.Entry[r.idSubs] == 'W' && hasTopic, id, "HANDOFF", R, R.Pos(), "replay goroutine entry",
+		"the replay goroutine starts with the subscribers write lock and the topic mutex held (taken by Subscribe and handed over)", "entry: "+res.Entry.String())
+	c.Report(len(res.DeferredUnlock[r.idSubs]) > 0 && len(res.DeferredUnlock[r.idTopic]) > 0, id, "RELEASE-AT-END", R, R.Pos(), "replay goroutine",
+		"both locks are released by deferred unlocks of the replay goroutine (held until it ends)")
+	// no early unlock inside the literal
+	for _, cl := range CallsIn(R) {
+		if op, ok := r.LA.opOf(cl); ok && (op.mode == 'w' || op.mode == 'r') && (op.id == r.idSubs || op.id == r.idTopic) {
+			if _, isDefer := cl.(*ssa.Defer); !isDefer {
+				c.Report(false, id, "NO-EARLY-RELEASE", R, cl.Pos(), "unlock", "the replay goroutine releases "+op.id+" before it registered the subscription")
+			}
+		}
+	}
+	// critical operations inside the literal
+	n := 0
+	AllInstrs(R, func(in ssa.Instruction) {
+		what := ""
+		switch x := in.(type) {
+		case *ssa.Lookup:
+			if r.isPers(x.X) {
+				what = "read of the persisted log"
+			}
+		case *ssa.Go:
+			if CalleeFn(&x.Call) == r.Deliver {
+				what = "start of a replay"
+			}
+		case *ssa.Call:
+			if CalleeFn(&x.Call) == r.AddSub {
+				what = "registration"
+			}
+		}
+		if what == "" {
+			return
+		}
+		n++
+		held := r.LA.Held(in)
+		_, t := held[r.idTopic]
+		c.Report(held[r.idSubs] == 'W' && t, id, "ATOMIC-REPLAY-REGISTER", R, in.Pos(), what, "happens with the subscribers write lock and the topic mutex held", "held: "+held.String())
+	})
+	c.Floor(id, "persisted-log reads, replay starts and registration in the replay goroutine", n, 3)
+	// the parent does not release after the hand-off
+	var goReplay *ssa.Go
+	AllInstrs(r.Subscribe, func(in ssa.Instruction) {
+		if g, ok := in.(*ssa.Go); ok && FuncOfValue(g.Call.Value) == R {
+			goReplay = g
+		}
+	})
+	if c.Floor(id, "go statement starting the replay goroutine", b2i(goReplay != nil), 1) {
+		after := ReachAfter(goReplay, nil)
+		ok := true
+		var wit []string
+		for _, cl := range CallsIn(r.Subscribe) {
+			op, isOp := r.LA.opOf(cl)
+			if !isOp || (op.mode != 'w' && op.mode != 'r') || (op.id != r.idSubs && op.id != r.idTopic) {
+				continue
+			}
+			if _, isDefer := cl.(*ssa.Defer); isDefer {
+				// a deferred unlock executed on a path through the go statement
+				if ReachAfter(cl, nil)[goReplay] || after[cl] {
+					ok = false
+					wit = append(wit, "deferred unlock at "+c.P.Pos(cl.Pos())+" runs on the persistent path")
+				}
+			} else if after[cl] {
+				ok = false
+				wit = append(wit, "unlock at "+c.P.Pos(cl.Pos())+" after the hand-off")
+			}
+		}
+		c.Report(ok, id, "PARENT-KEEPS-LOCKED", r.Subscribe, goReplay.Pos(), "hand-off", "Subscribe itself releases neither lock on the persistent path (they stay held until the replay goroutine has registered the subscription)", wit...)
+		held := r.LA.Held(goReplay)
+		_, t := held[r.idTopic]
+		c.Report(held[r.idSubs] == 'W' && t, id, "LOCKED-AT-HANDOFF", r.Subscribe, goReplay.Pos(), "hand-off", "both locks are held when the replay goroutine is started", "held: "+held.String())
+		// the replay literal is started for the subscription being created
+	}
 }
